@@ -42,7 +42,7 @@ Admissible(rec) == \A key \in ItemKeys : \E i \in 1..Len(past) : ValOf(rec, key)
 InitC == Init /\ dur = Len(file) /\ past = <<Obs(mem)>> /\ crashed = FALSE
 
 \* an ordinary engine call; snapshots/compactions/compress make everything before them durable
-Durabilising == {"SaveSnapshot", "RewriteAOF", "VCompress", "Reopen", "VDeleteCut", "VImportCommit", "SnapshotCut"}
+Durabilising == {"SaveSnapshot", "RewriteAOF", "VCompress", "Reopen", "VDeleteCut", "VImportCommit", "SnapshotCut", "VDeleteSnapCut"}
 Step ==
   /\ ~crashed
   /\ Next
